@@ -15,11 +15,13 @@ package lifecycle
 //@   for C16
 //@   requires lmOK(m) && unlocked(m.locker)
 //@   at (*Notify).Broadcast requires [C16.broadcast-under-L] locked(n.L)
+//@   modifies m.currentState, lockstate(m.locker), m.notify.cc, lockstate(addr(m.notify.mu)), bcasts(m.notify)
 //@   ensures [C16.lifecycle.update] m.currentState == state && unlocked(m.locker) && lmOK(m)
 
 //@ func (*Manager).WaitForStateChange
 //@   for C16
 //@   requires lmOK(m) && ctx != nil && unlocked(m.locker)
+//@   modifies lockstate(m.locker), m.notify.cc, lockstate(addr(m.notify.mu)), waitreg(m.notify), cancelled(ctx)
 //@   ensures [C16.lifecycle.wait] (result ==> m.currentState != sourceState) && (!result ==> cancelled(ctx))
 //@   ensures [C16.lifecycle.wait.unlock] unlocked(m.locker) && lmOK(m)
 //@   loop 0 invariant locked(m.locker) && lmOK(m) && (!ok ==> cancelled(ctx))
@@ -27,6 +29,7 @@ package lifecycle
 //@ func (*Manager).GetCurrentState
 //@   for C16
 //@   requires lmOK(m) && unlocked(m.locker)
+//@   modifies lockstate(m.locker)
 //@   ensures [C16.lifecycle.get] state == m.currentState && unlocked(m.locker)
 
 //@ extern (*sync.WaitGroup).Add(wg, n)
@@ -35,6 +38,7 @@ package lifecycle
 //@ func (*Manager).TaskWaitForStateChange
 //@   for C16
 //@   requires lmOK(m) && ctx != nil && unlocked(m.locker)
+//@   modifies lockstate(m.locker), m.notify.cc, lockstate(addr(m.notify.mu)), waitreg(m.notify), cancelled(ctx)
 //@   ensures [C16.lifecycle.taskwait] (ret1 ==> m.currentState != sourceState && ret0 != nil) && (!ret1 ==> cancelled(ctx) && ret0 == nil)
 //@   ensures [C16.lifecycle.taskwait.unlock] unlocked(m.locker) && lmOK(m)
 //@   loop 0 invariant locked(m.locker) && lmOK(m)
